@@ -206,13 +206,17 @@ func (i *interpreter) byteDomainCheck(rel []*sym.Term, t *sym.Term) (sym.Result,
 	if vid < 0 {
 		return 0, false
 	}
+	// conjuncts that mention only this variable constrain its domain; the others are skipped:
+	// dropping conjuncts only enlarges the set of models, so an Unsat answer stays sound, while
+	// a Sat answer is only returned when nothing was skipped
+	partial := false
+	var own []*sym.Term
 	for _, r := range rel {
 		rv := i.termVars(r)
-		if len(rv) != 1 {
-			return 0, false
-		}
-		if _, ok := rv[vid]; !ok {
-			return 0, false
+		if _, ok := rv[vid]; ok && len(rv) == 1 {
+			own = append(own, r)
+		} else {
+			partial = true
 		}
 	}
 	vt := i.varByID(vid)
@@ -228,8 +232,7 @@ func (i *interpreter) byteDomainCheck(rel []*sym.Term, t *sym.Term) (sym.Result,
 	default:
 		return 0, false
 	}
-	// domain of the variable under the relevant path-condition conjuncts (memoised per conjunct)
-	dom := i.domainOf(vid, n, rel)
+	dom := i.domainOf(vid, n, own)
 	if dom == nil {
 		return 0, false
 	}
@@ -244,6 +247,9 @@ func (i *interpreter) byteDomainCheck(rel []*sym.Term, t *sym.Term) (sym.Result,
 			return 0, false
 		}
 		if v == 1 {
+			if partial {
+				return 0, false
+			}
 			return sym.Sat, true
 		}
 	}
@@ -413,12 +419,18 @@ func (i *interpreter) decideTerm(c *sym.Term) bool {
 		i.addPC(nc)
 		return false
 	}
-	ft := i.feasible(c)
-	var ff sym.Result
-	if ft == sym.Unsat {
-		ff = sym.Sat // pc is satisfiable by invariant
+	var ft, ff sym.Result
+	if r, ok := i.feasibleQuick(nc); ok && r == sym.Unsat {
+		ft, ff = sym.Sat, sym.Unsat // pc is satisfiable by invariant, so c is the only feasible side
+	} else if r, ok := i.feasibleQuick(c); ok && r == sym.Unsat {
+		ft, ff = sym.Unsat, sym.Sat
 	} else {
-		ff = i.feasible(nc)
+		ft = i.feasible(c)
+		if ft == sym.Unsat {
+			ff = sym.Sat // pc is satisfiable by invariant
+		} else {
+			ff = i.feasible(nc)
+		}
 	}
 	if ft == sym.Unknown || ff == sym.Unknown {
 		i.Stats.UnknownFeas++
